@@ -105,6 +105,25 @@ def p_shift(t):
     return None
 
 
+def p_offset_lines(t):
+    """the ranges of a block of numbered lines taken from further down a larger file (numbered from k+1) are those of the
+    text, k higher"""
+    from debian_inspector import deb822
+    try:
+        base = dc.DebianCopyright.from_text(t)
+        k = (3, 1000, 17)[len(t) % 3]
+        lines = [deb822.NumberedLine(number=l.number + k, value=l.value) for l in deb822.NumberedLine.lines_from_text(t)]
+        c = dc.DebianCopyright.from_fields_groups(deb822.get_paragraphs_as_field_groups_from_lines(lines))
+        # (the ranges of fields that hold a value: a field without one has no lines and is given a default range)
+        ra = [(n, v, (a + k, b + k)) for n, v, (a, b) in live_ranges(base)]
+        rb = live_ranges(c)
+    except Exception as e:  # noqa
+        return 'raises %s' % type(e).__name__
+    if ra != rb or base.to_dict() != c.to_dict():
+        return 'lines numbered from %d give ranges %r; the text gives (shifted) %r' % (k + 1, rb, ra)
+    return None
+
+
 def p_file_route(x):
     """the same ranges whether the text is passed in or read from a UTF-8 file"""
     path, t = x
@@ -141,6 +160,7 @@ def run(ctx):
     fails = ctx.prop('prop:ranges', texts, p_ranges)
     fails += ctx.prop('prop:observing-changes-nothing', texts[::max(1, len(texts) // ctx.n(900, 9000))], _copy.p_observe)
     fails += ctx.prop('prop:shift', texts[:ctx.n(6000, 80000)], p_shift)
+    fails += ctx.prop('prop:lines-numbered-from-anywhere', texts[:ctx.n(3000, 40000)], p_offset_lines)
     import os
     fpath = os.path.join(ctx.scratch, 'copyright.txt')
     ftexts = [('\n' * rng.choice([0, 0, 1, 2]) + t) for t in texts[:ctx.n(500, 5000)]]
